@@ -284,7 +284,7 @@ class Engine:
 
     def oblige(self, st, kind, goal, node=None, note=''):
         line = getattr(node, 'lineno', None)
-        nm = f'{self.spec.prop}.{self.spec.module}.{self.spec.qualname}#{kind}'
+        nm = f'{self.spec.name}#{kind}'      # == prop.module.qualname (sidecar variants may add a [suffix])
         if line:
             nm += f'@{line}'
         if isinstance(goal, bool):
@@ -300,11 +300,23 @@ class Engine:
             return c
         self.solver_checks += 1
         s = z3.Solver()
-        s.set('timeout', 2000)
+        # pruning only (unknown counts as feasible): a sidecar may shorten it via Spec.feasible_timeout_ms when its
+        # path conditions are sequence-heavy and the check would only time out
+        s.set('timeout', getattr(self.spec, 'feasible_timeout_ms', 2000))
         s.set('rlimit', 20000000)
         s.add(*relevant(st.pc, cond))
         s.add(cond)
-        return s.check() != z3.unsat
+        if s.check() != z3.unsat:
+            return True
+        # z3 5.1 can report `unsat` when the resource limit cancels the sequence solver (observed on a
+        # satisfiable str.substr / uninterpreted-split query; cvc5: sat).  An unsat verdict that coincides with an
+        # exhausted rlimit is therefore not trusted: the branch stays feasible (pruning only, never a verdict).
+        try:
+            if s.statistics().get_key_value('rlimit count') >= 19000000:
+                return True
+        except Exception:
+            return True
+        return False
 
     def branch(self, st, cond, node=None):
         """Fork st on z3 Bool cond -> list[(state, bool)] of feasible sides."""
@@ -339,6 +351,21 @@ class Engine:
                 csyms = free_syms(cond)
             if not (free_syms(v.isnone) & csyms):
                 continue
+            # fast path: the fact just assumed (last path-condition entry) has `v is None` / `v is not None` as a
+            # top-level conjunct - no solver call (the general check below can time out on large path conditions)
+            facts, todo = [], [s.pc[-1]] if s.pc else []
+            while todo:
+                f_ = todo.pop()
+                if z3.is_and(f_):
+                    todo.extend(f_.children())
+                else:
+                    facts.append(f_)
+            if any(f_.eq(z3.Not(v.isnone)) for f_ in facts):
+                s.env[name] = v.val
+                continue
+            if any(f_.eq(v.isnone) for f_ in facts):
+                s.env[name] = v.exc if isinstance(v, VOrExc) else VNone
+                continue
             sol = z3.Solver()
             sol.set('timeout', 1000)
             sol.add(*relevant(s.pc, v.isnone))
@@ -350,7 +377,7 @@ class Engine:
             sol.pop()
             sol.add(z3.Not(v.isnone))
             if sol.check() == z3.unsat:
-                s.env[name] = VNone
+                s.env[name] = v.exc if isinstance(v, VOrExc) else VNone
 
     # ----------------------------------------------------------- truthiness
     def truthy(self, st, v):
@@ -362,6 +389,8 @@ class Engine:
             return z3.Length(v.z) > 0
         if v is VNone:
             return z3.BoolVal(False)
+        if isinstance(v, VOrExc):
+            return z3.Or(v.isexc, self.truthy(st, v.val))     # exception objects are truthy
         if isinstance(v, VOpt):
             return z3.And(z3.Not(v.isnone), self.truthy(st, v.val))
         if isinstance(v, (VTuple, VList)):
@@ -385,6 +414,12 @@ class Engine:
             return f(v.z)
         if isinstance(v, (VTag, VExc)):
             return z3.BoolVal(True)
+        if isinstance(v, VPy):
+            P = pyobj_sort()
+            z = v.z
+            return z3.Or(z3.And(P.is_py_bool(z), P.py_b(z)), z3.And(P.is_py_int(z), P.py_i(z) != 0),
+                         z3.And(P.is_py_str(z), z3.Length(P.py_s(z)) > 0),
+                         z3.And(P.is_py_strlist(z), z3.Length(P.py_l(z)) > 0), P.is_py_tuple2(z))
         if isinstance(v, VMap):
             f = z3.Function('nonempty_' + str(v.dom.sort()), v.dom.sort(), BoolS)
             return f(v.dom)
@@ -411,6 +446,14 @@ class Engine:
         a, b = self.deref(st, a), self.deref(st, b)
         if a is VNone and b is VNone:
             return z3.BoolVal(True)
+        if isinstance(a, VPy) or isinstance(b, VPy):
+            # dynamically typed value: compare inside the PyObj datatype (None/bool/int/str/list[str]/tuples)
+            try:
+                return py_inject(a) == py_inject(b)
+            except Unsupported:
+                return z3.BoolVal(False)
+        if isinstance(a, VOrExc) or isinstance(b, VOrExc):
+            raise Unsupported('equality on a data-or-exception value')
         if isinstance(a, VOpt) and not isinstance(b, VOpt):
             if b is VNone:
                 return a.isnone
@@ -426,6 +469,10 @@ class Engine:
             return z3.BoolVal(a.addr == b.addr)
         if isinstance(a, VTag) and isinstance(b, VTag):
             return z3.BoolVal(a.tag == b.tag)
+        if isinstance(a, VOpaque) and a.sortname == 'Tag' and isinstance(b, VTag):
+            return a.z == tag_id(b.tag)
+        if isinstance(b, VOpaque) and b.sortname == 'Tag' and isinstance(a, VTag):
+            return b.z == tag_id(a.tag)
         if isinstance(a, (VTuple, VList)) and isinstance(b, (VTuple, VList)):
             if type(a) is not type(b) or len(a.items) != len(b.items):
                 return z3.BoolVal(False)
@@ -441,6 +488,11 @@ class Engine:
         if hasattr(a, 'z') and hasattr(b, 'z'):
             if a.z.sort() == b.z.sort():
                 return a.z == b.z
+            # a value of unknown dynamic type ('any') may well equal a str/int/bool/bytes: undetermined, not False
+            for x, y in ((a, b), (b, a)):
+                if isinstance(x, VOpaque) and x.sortname == 'Any' and isinstance(y, (VStr, VInt, VBool, VBytes)):
+                    f = z3.Function('any_eq_' + type(y).__name__[1:].lower(), x.z.sort(), y.z.sort(), BoolS)
+                    return f(x.z, y.z)
             return z3.BoolVal(False)
         if type(a) is not type(b):
             return z3.BoolVal(False)
@@ -501,11 +553,29 @@ class Engine:
         parts = [v.value for v in e.values if isinstance(v, ast.FormattedValue)]
         res = self.ev_list(parts, st)
         out = []
+        plain = getattr(self.spec, 'precise_fstrings', False) and all(
+            isinstance(v, ast.Constant) or (v.conversion == -1 and v.format_spec is None) for v in e.values)
         for s, vals in res:
             if isinstance(vals, Raised):
                 out.append((s, vals))
+            elif plain and all(isinstance(self.deref(s, x), (VStr, VInt)) for x in vals):
+                # exact value: concatenation of the literal pieces and str(piece); str(int) = int_to_str(int)
+                zs, it = [], iter(vals)
+                for v in e.values:
+                    if isinstance(v, ast.Constant):
+                        zs.append(z3.StringVal(v.value))
+                    else:
+                        x = self.deref(s, next(it))
+                        zs.append(x.z if isinstance(x, VStr) else z3.Function('int_to_str', IntS, StrS)(x.z))
+                out.append((s, VStr(zs[0] if len(zs) == 1 else z3.Concat(*zs))))
             else:
-                out.append((s, VStr(z3.String(fresh_name('fstr')))))
+                f = z3.String(fresh_name('fstr'))
+                # an f-string is at least as long as its literal pieces (so a non-empty literal makes it truthy)
+                minlen = sum(len(v.value) for v in e.values if isinstance(v, ast.Constant)
+                             and isinstance(v.value, str))
+                if minlen:
+                    s.assume(z3.Length(f) >= minlen)
+                out.append((s, VStr(f)))
         return out
 
     def ev_Name(self, e, st):
@@ -520,6 +590,12 @@ class Engine:
             return [(st, wrap_const(self.mod.lookup_const(n)))]
         except (KeyError, Unsupported):
             pass
+        rx = self.mod.consts.get('__nodes__', {}).get(n)
+        if rx is not None:
+            from . import regex_model
+            pat = regex_model.pattern_of_node(rx)
+            if pat is not None:       # module-level NAME = re.compile('<literal>')
+                return [(st, VTag('regex', payload=pat))]
         if extract.class_hierarchy().get(n) is not None or n in self.mod.classes:
             return [(st, VTag('class:' + n))]
         import builtins
@@ -601,6 +677,10 @@ class Engine:
                 cv = self.spec.class_consts.get((cell.cls, attr))
                 if cv is not None:
                     return [(s, cv)]
+                # @property executed from its real source: inline={'prop:Class.attr': (module, 'Class.attr')}
+                pt = self.spec.inline.get(f'prop:{cell.cls}.{attr}')
+                if pt is not None:
+                    return self.inline_call(s, f'{cell.cls}.{attr}', base, [], {}, node, pt)
                 # bound method reference
                 return [(s, VTag(f'method:{cell.cls}.{attr}', payload=(base, attr)))]
         if isinstance(base, VExc):
@@ -608,7 +688,17 @@ class Engine:
                 return [(s, base.attrs[attr])]
             return [(s, self.fresh(s, 'any', 'excattr_' + attr))]
         if isinstance(base, VTag) and base.tag.startswith('class:'):
+            cv = self.spec.class_consts.get((base.tag[6:], attr))
+            if cv is not None:
+                return [(s, cv)]
             return [(s, VTag(f'{base.tag}.{attr}'))]
+        if isinstance(base, VOpaque):
+            # read-only attribute of an abstract object: a function of the object (declared in the sidecar)
+            t = getattr(self.spec, 'opaque_attrs', {}).get((base.sortname, attr))
+            if t is not None:
+                t = parse_type(t)
+                f = z3.Function(f'attr_{base.sortname}_{attr}', base.z.sort(), sort_of(t))
+                return [(s, from_z3(f(base.z), t))]
         raise Unsupported(f'attribute .{attr} of {base!r} at line {node.lineno}')
 
     def ev_BoolOp(self, e, st):
@@ -650,7 +740,66 @@ class Engine:
                 raise Unsupported(f'unary {type(e.op).__name__} on {v!r}')
         return out
 
+    def try_merge_ifexp(self, e, st):
+        """`a if c else b` as one ite value (no fork) when c is a pure condition and both arms are effect-free
+        single-outcome expressions and one arm is a symbolic list, the other an empty list display / symbolic list
+        (pattern: x.split(b',') if x else []).  Anything else: None -> caller forks as usual."""
+        if not self.is_pure_cond(e.test, st):
+            return None
+        try:
+            c = self.pure_cond(e.test, st)
+        except Unsupported:
+            return None
+        if c is None or concrete_bool(c) is not None:
+            return None
+        nob = len(self.obligations)
+        s1, s2 = st.fork(), st.fork()
+        n0 = len(st.pc)
+        s1.assume(c)
+        s2.assume(z3.Not(c))
+        try:
+            r1, r2 = self.ev(e.body, s1), self.ev(e.orelse, s2)
+        except Unsupported:
+            del self.obligations[nob:]
+            return None
+        if len(r1) != 1 or len(r2) != 1 or len(self.obligations) != nob or r1[0][0] is not s1 \
+                or r2[0][0] is not s2 or isinstance(r1[0][1], Raised) or isinstance(r2[0][1], Raised):
+            del self.obligations[nob:]
+            return None
+        extra_heap = {}
+        for sx in (s1, s2):
+            if sx.calls != st.calls or sx.events != st.events or sx.env != st.env:
+                return None
+            for addr, cell in sx.heap.items():
+                if st.heap.get(addr) is cell:
+                    continue
+                if isinstance(addr, str) and addr.startswith('__') and isinstance(cell, tuple):
+                    old = extra_heap.get(addr, tuple(st.heap.get(addr, ())))
+                    extra_heap[addr] = old + tuple(x for x in cell if x not in old)
+                elif isinstance(addr, int) and addr >= st.next_addr and not isinstance(cell, Record):
+                    continue     # fresh container cell, reachable only through the arm's value
+                else:
+                    return None
+        a, b = self.deref(s1, r1[0][1]), self.deref(s2, r2[0][1])
+        if isinstance(a, VSeq) and isinstance(b, VList) and not b.items:
+            v = VSeq(z3.If(c, a.z, z3.Empty(a.z.sort())), a.elem)
+        elif isinstance(b, VSeq) and isinstance(a, VList) and not a.items:
+            v = VSeq(z3.If(c, z3.Empty(b.z.sort()), b.z), b.elem)
+        elif isinstance(a, VSeq) and isinstance(b, VSeq) and a.elem == b.elem:
+            v = VSeq(z3.If(c, a.z, b.z), a.elem)
+        else:
+            return None      # scalars keep forking (unchanged behaviour for existing contracts)
+        for z in s1.pc[n0 + 1:]:
+            st.assume(z3.Implies(c, z))
+        for z in s2.pc[n0 + 1:]:
+            st.assume(z3.Implies(z3.Not(c), z))
+        st.heap.update(extra_heap)
+        return [(st, v)]
+
     def ev_IfExp(self, e, st):
+        m = self.try_merge_ifexp(e, st)
+        if m is not None:
+            return m
         out = []
         for s, c in self.ev(e.test, st):
             if isinstance(c, Raised):
@@ -768,11 +917,18 @@ class Engine:
                 return [(s, VSeq(z3.Concat(to_z3(a, b.typ), b.z), b.elem))]
         if isinstance(op, ast.Mult):
             n = concrete_int(b) if isinstance(b, VInt) else None
+            if isinstance(a, VInt) and isinstance(b, VBytes):
+                a, b = b, a      # int * bytes == bytes * int
             if isinstance(a, VBytes) and isinstance(b, VInt):
                 f = z3.Function('bytes_repeat', BytesS, IntS, BytesS)
                 r = f(a.z, b.z)
-                la = z3.Length(a.z)
+                cb = concrete_bytes(a)
+                la = z3.Length(a.z) if cb is None else z3.IntVal(len(cb))     # keep the product linear
                 s.assume(z3.Length(r) == z3.If(b.z > 0, la * b.z, 0))
+                if cb is not None and len(cb) == 1:
+                    # repetition of a single byte: every element is that byte
+                    j = z3.Int(fresh_name('rep_j'))
+                    s.assume(z3.ForAll([j], z3.Implies(z3.And(j >= 0, j < z3.Length(r)), r[j] == cb[0])))
                 return [(s, VBytes(r))]
         if isinstance(op, ast.Mod) and isinstance(a, VStr):
             return [(s, VStr(z3.String(fresh_name('fmt'))))]
@@ -815,6 +971,20 @@ class Engine:
     def contains(self, s, cont, x, node):
         cont = self.deref(s, cont)
         x = self.deref(s, x)
+        if isinstance(cont, VOpt) and isinstance(cont.val, (VSymSet, VSeq)):
+            # Optional container already known to be set on this path (`if self._s is not None: ... x in self._s`);
+            # a possibly-None container would need a TypeError fork, which a pure comparison cannot express
+            sol = z3.Solver()
+            sol.set('timeout', 2000)
+            sol.add(*relevant(s.pc, cont.isnone))
+            sol.add(cont.isnone)
+            if sol.check() != z3.unsat:
+                raise Unsupported(f'`in` on a possibly-None container at line {node.lineno}')
+            cont = cont.val
+        if isinstance(cont, VSymSet):
+            xz = to_z3(x, cont.elem)
+            s.heap['__setkeys__'] = tuple(s.heap.get('__setkeys__', ())) + (xz,)
+            return z3.Select(cont.z, xz)
         if isinstance(cont, VSet):
             if not cont.items:
                 return z3.BoolVal(False)
@@ -835,18 +1005,41 @@ class Engine:
         if isinstance(cont, VBytes):
             if isinstance(x, VInt):
                 return z3.Contains(cont.z, z3.Unit(x.z))
+            xb = concrete_bytes(x)
+            if xb is not None and len(xb) == 1:
+                # single concrete byte in a concatenation term: decided structurally when possible (exact)
+                from . import bstruct
+                if bstruct.worth_trying(s, cont.z):
+                    cb = bstruct.contains_byte(self, s, cont.z, xb[0])
+                    if cb is not None:
+                        return z3.BoolVal(cb)
             return z3.Contains(cont.z, x.z)
         if isinstance(cont, VStr) and isinstance(x, VStr):
             return z3.Contains(cont.z, x.z)
         if isinstance(cont, VMap):
             self.note_mapkey(s, cont, to_z3(x, cont.kt))
             return z3.Select(cont.dom, to_z3(x, cont.kt))
+        if isinstance(cont, VOpaque) and isinstance(x, (VOpaque, VStr, VInt)):
+            # membership in an abstract container (e.g. ipaddress network): uninterpreted predicate
+            f = z3.Function(f'contains_{cont.sortname}', cont.z.sort(), x.z.sort(), BoolS)
+            return f(cont.z, x.z)
         raise Unsupported(f'`in` on {cont!r} at line {node.lineno}')
 
     # ---- subscripts
     def norm_idx(self, i, n, s=None):
         full = z3.If(i < 0, z3.If(i + n < 0, 0, i + n), z3.If(i > n, n, i))
         r = simp(full)
+        if s is not None and not z3.is_int_value(r) and z3.is_int_value(simp(i)) and 'lit-slice' in self.spec.tags:
+            # opt-in (Spec(tags=['lit-slice'])): literal bound, e.g. x[:-1] -> len(x) - 1 when the path condition
+            # entails len(x) >= 1; x[:8] -> 8 when it entails len(x) >= 8
+            iv = simp(i).as_long()
+            inr = (n + iv >= 0) if iv < 0 else (n >= iv)
+            sol = z3.Solver()
+            sol.set('timeout', 1000)
+            sol.add(*relevant(s.pc, inr))
+            sol.add(z3.Not(inr))
+            if sol.check() == z3.unsat:
+                return (n - (-iv)) if iv < 0 else z3.IntVal(iv)
         if s is not None and not z3.is_int_value(r) and not z3.is_int_value(simp(i)):
             # contextual simplification: if the path condition entails 0 <= i <= n the bound is i itself
             sol = z3.Solver()
@@ -916,6 +1109,13 @@ class Engine:
                             out.append((s2, b))
                             continue
                         lo, hi = b
+                        if isinstance(base, VBytes):
+                            # slice of a concatenation term falling on part boundaries: exact, stays structured
+                            from . import bstruct
+                            sz = bstruct.slice_parts(self, s2, base.z, lo, hi)
+                            if sz is not None:
+                                out.append((s2, VBytes(sz, mutable=base.mutable)))
+                                continue
                         ln = self.ctx_nonneg(s2, hi - lo)
                         z = z3.Extract(base.z, simp(lo), simp(ln))
                         if isinstance(base, VBytes):
@@ -955,6 +1155,14 @@ class Engine:
                     res.append((s2, Raised(VExc('IndexError'))))
                     continue
                 j = simp(z3.If(i < 0, i + n, i))
+                if getattr(self.spec, 'simplify_index', False) and not z3.is_int_value(j):
+                    # opt-in contextual simplification: the path condition entails i >= 0, so x[i] is Nth(x, i)
+                    sol = z3.Solver()
+                    sol.set('timeout', 1000)
+                    sol.add(*relevant(s2.pc, i >= 0))
+                    sol.add(i < 0)
+                    if sol.check() == z3.unsat:
+                        j = i
                 if isinstance(base, VBytes):
                     el = base.z[j]
                     s2.assume(z3.And(el >= 0, el <= 255))
@@ -982,7 +1190,21 @@ class Engine:
             if k is None:
                 k = concrete_str(idx)
             if k is None:
-                raise Unsupported('symbolic key into concrete dict')
+                # symbolic key over a concrete dict: case split on the keys, KeyError when none is equal
+                # (same scheme as dict.get in builtins_model.di_get)
+                res, rest = [], s
+                for ck, cv in base.items.items():
+                    nxt = None
+                    for s2, eq in self.branch(rest, self.veq(rest, idx, wrap_const(ck)), node):
+                        if eq:
+                            res.append((s2, cv))
+                        else:
+                            nxt = s2
+                    if nxt is None:
+                        return res
+                    rest = nxt
+                res.append((rest, Raised(VExc('KeyError'))))
+                return res
             if k in base.items:
                 return [(s, base.items[k])]
             return [(s, Raised(VExc('KeyError')))]
@@ -992,11 +1214,43 @@ class Engine:
             res = []
             for s2, has in self.branch(s, z3.Select(base.dom, kz), node):
                 if has:
-                    res.append((s2, self.map_value(s2, base, kz)))
+                    mv = self.map_value(s2, base, kz)
+                    if isinstance(mv, VSeq) and getattr(self.spec, 'alias_map_lists', False) \
+                            and isinstance(node, ast.Subscript):
+                        mv = self.alias_map_entry(mv, node.value, kz, base)
+                    res.append((s2, mv))
                 else:
                     res.append((s2, Raised(VExc('KeyError'))))
             return res
         raise Unsupported(f'index of {base!r} at line {node.lineno}')
+
+    def alias_map_entry(self, v, container, kz, m0):
+        """x = self._m[k] where the map holds lists (opt-in: spec.alias_map_lists): the local is an alias of the
+        list object.  In-place mutation through the local is written back to the map entry (origin), and after a
+        stubbed call that may have changed the map the local is re-read from it (origin.reload)."""
+        def current(st):
+            (st1, cur), = self.ev(container, st)
+            cur = self.deref(st1, cur)
+            if not isinstance(cur, VMap):
+                raise Unsupported('aliased list: its map is no longer a symbolic map')
+            return cur
+
+        def origin(st, old, new):
+            cur = current(st)
+            self.store_container(st, container, VMap(cur.dom, z3.Store(cur.val, kz, new.z), cur.kt, cur.vt))
+
+        def reload(st):
+            cur = current(st)
+            return VSeq(z3.Select(cur.val, kz), v.elem, origin=origin)
+        origin.reload = reload
+        origin.key = kz
+        return VSeq(v.z, v.elem, origin=origin)
+
+    def reload_aliases(self, st):
+        for name, v in list(st.env.items()):
+            rl = getattr(getattr(v, 'origin', None), 'reload', None)
+            if rl is not None and 'self' in st.env:
+                st.env[name] = rl(st)
 
     def alias_items(self, s, tup, base, j, node):
         """Mutable bytearray components of an element of a symbolic list keep a write-back link
@@ -1073,7 +1327,46 @@ class Engine:
 
     def ev_Await(self, e, st):
         # an await of a stubbed coroutine call: the stub models the whole awaited effect
-        return self.ev(e.value, st)
+        n0 = len(st.calls)
+        aval = e.value
+        if isinstance(aval, ast.Call) and self.callee_key(aval.func) == 'cast' and len(aval.args) == 2:
+            aval = aval.args[1]         # `await cast(T, x)` is `await x` (cast is dropped by extraction)
+        if not isinstance(aval, ast.Call):
+            # `await fut`: a cut point; the sidecar's stub 'await <key>' models what the environment may do meanwhile
+            akey = 'await ' + self.callee_key(aval)
+            astub = self.spec.stubs.get(akey)
+            if astub is not None:
+                out = []
+                for s, v in self.ev(aval, st):
+                    if isinstance(v, Raised):
+                        out.append((s, v))
+                    else:
+                        out.extend(self.apply_stub(s, astub, akey, None, [v], {}, e))
+                return out
+        res = self.ev(e.value, st)
+        if isinstance(e.value, ast.Call):
+            # replay only: the native harness must answer this stubbed call with an awaitable
+            key = self.callee_key(e.value.func)
+            for s, _v in res:
+                for i in range(len(s.calls) - 1, n0 - 1, -1):
+                    if s.calls[i].get('key') == key and s.calls[i].get('line') == e.value.lineno:
+                        s.calls[i] = dict(s.calls[i], awaited=True)
+                        break
+        return res
+
+    def ev_Yield(self, e, st):
+        # (async) generator: every `yield` is a cut point, modelled as a call of the sidecar's 'yield' stub on the
+        # yielded value (the stub logs ghost state / states pre-at-call obligations; the value sent back is its ret)
+        stub = self.spec.stubs.get('yield')
+        if stub is None:
+            raise Unsupported(f'yield at line {e.lineno}: the sidecar has no "yield" stub')
+        out = []
+        for s, v in ([(st, VNone)] if e.value is None else self.ev(e.value, st)):
+            if isinstance(v, Raised):
+                out.append((s, v))
+            else:
+                out.extend(self.apply_stub(s, stub, 'yield', None, [v], {}, e))
+        return out
 
     def ev_Call(self, e, st):
         from . import builtins_model as bm
@@ -1084,6 +1377,12 @@ class Engine:
             return [(st, VNone)]
         if key == 'cast' and len(e.args) == 2:
             return self.ev(e.args[1], st)
+        if key == 'super' and not e.args and not e.keywords and 'self' in st.env and 'super' not in self.spec.stubs:
+            # zero-argument super(): the receiver is self; the method looked up on it must be resolved by a
+            # textual stub / inline  'super().name'  (checked below), never by the receiver's own class
+            return [(st, st.env['self'])]
+        if key.startswith('super().') and key not in self.spec.stubs and key not in self.spec.inline:
+            raise Unsupported(f'call to {key} at line {e.lineno}: give a stub or an inline for the base-class method')
         out = []
         # evaluate receiver (if method call) then arguments
         if isinstance(f, ast.Attribute) and not self.is_module_ref(f.value, st):
@@ -1184,6 +1483,16 @@ class Engine:
             if o.assume:
                 a = z3.And(*[z3.BoolVal(z) if isinstance(z, bool) else z for z in o.assume])
                 if not self.feasible(s2, a):
+                    dead = z3.Solver()
+                    dead.set('timeout', 2000)
+                    dead.add(*relevant(s2.pc, a))
+                    if getattr(o, 'normal', False) and dead.check() != z3.unsat:
+                        # (a path that is already dead - e.g. behind a refuted and then assumed call-site
+                        # obligation - is simply dropped: the contract is not what makes it infeasible)
+                        # the NORMAL outcome of a callee contract is unsatisfiable in this state: that is a
+                        # modelling error (it would silently drop every path through the call), never a pass
+                        raise Unsupported(f'postcondition of the contract used for {key} at line '
+                                          f'{node.lineno} is unsatisfiable here (modelling error)')
                     continue
                 for z in o.assume:
                     s2.assume(z)
@@ -1192,10 +1501,20 @@ class Engine:
                 s2.set_field(tgt, fname, val)
             for ref, fname, val in o.osets:
                 s2.set_field(ref, fname, val)
+            if (o.sets or o.osets) and getattr(self.spec, 'alias_map_lists', False):
+                self.reload_aliases(s2)
             if o.event is not None:
                 s2.events.append(o.event)
+            if getattr(stub, 'pure', False):
+                # sidecar-side *model* of a real, effect-free operation (e.g. dict.get on a concrete table as an
+                # ite-chain): natively the real operation runs, so it is not part of the replay script
+                res.append((s2, Raised(o.exc) if o.exc is not None else o.ret))
+                continue
             s2.calls.append(dict(key=key, args=args, kwargs=kwargs, ret=o.ret, exc=o.exc,
                                  sets={k: v for k, v in o.sets.items() if not k.startswith('ghost_')},
+                                 # opt-in (Out.native_osets = True): replay the effect on other objects natively
+                                 osets=[t for t in o.osets if not t[1].startswith('ghost_')]
+                                 if getattr(o, 'native_osets', False) else [],
                                  line=node.lineno, recv=recv))
             res.append((s2, Raised(o.exc) if o.exc is not None else o.ret))
         return res
@@ -1252,7 +1571,53 @@ class Engine:
         raise Unsupported('starred expression outside call')
 
     def ev_GeneratorExp(self, e, st):
-        raise Unsupported(f'generator expression at line {e.lineno}')
+        # lazy value: the body is evaluated by the consumer (any / all / next / list += ; see builtins_model.gen_*).
+        # Supported only when consumed in the expression that creates it (no intervening state change).
+        if len(e.generators) != 1 or e.generators[0].is_async:
+            raise Unsupported(f'generator expression with several for-clauses at line {e.lineno}')
+        return [(st, VTag('genexp', payload=e))]
+
+    # ---- side-effect-free single-outcome evaluation (generator bodies)
+    def pure_value(self, e, st):
+        """Value of an expression that neither forks (after merging), raises nor changes state; else Unsupported.
+        `a and b` / `a or b` / `not a` are returned as their truth value (callers only need truthiness)."""
+        if isinstance(e, ast.BoolOp) or (isinstance(e, ast.UnaryOp) and isinstance(e.op, ast.Not)):
+            parts = e.values if isinstance(e, ast.BoolOp) else [e.operand]
+            zs = [self.truthy(st, self.pure_value(v, st)) for v in parts]
+            if isinstance(e, ast.UnaryOp):
+                return VBool(z3.Not(zs[0]))
+            return VBool(z3.And(*zs) if isinstance(e.op, ast.And) else z3.Or(*zs))
+        if isinstance(e, ast.IfExp):
+            c = self.truthy(st, self.pure_value(e.test, st))
+            a, b = self.pure_value(e.body, st), self.pure_value(e.orelse, st)
+            cc = concrete_bool(c)
+            v = (a if cc else b) if cc is not None else self.merge_values(c, a, b)
+            if v is None:
+                raise Unsupported(f'conditional expression with unmergeable arms at line {e.lineno}')
+            return v
+        n0, nob, nev = len(st.pc), len(self.obligations), len(st.events)
+        heap0 = dict(st.heap)
+        rs = self.ev(e, st)
+        if len(rs) != 1 or isinstance(rs[0][1], Raised) or rs[0][0] is not st or len(st.pc) != n0 \
+                or len(self.obligations) != nob or len(st.events) != nev:
+            del self.obligations[nob:]
+            raise Unsupported(f'generator body is not a pure single-outcome expression at line {e.lineno}')
+        for k, v in st.heap.items():
+            if heap0.get(k) is not v and isinstance(v, Record):
+                raise Unsupported(f'generator body changes object state at line {e.lineno}')
+        return rs[0][1]
+
+    def gen_probe(self, s, g, elem_v):
+        """(filter condition z3, element Value) of generator expression g for one element `elem_v`,
+        evaluated on a scratch copy of s (the body must be pure: see pure_value)."""
+        gen = g.generators[0]
+        p = s.fork()
+        rs = self.assign(p, gen.target, elem_v)
+        if len(rs) != 1 or rs[0][1] is not None or rs[0][0] is not p:
+            raise Unsupported(f'generator target at line {g.lineno}')
+        conds = [self.truthy(p, self.pure_value(c, p)) for c in gen.ifs]
+        val = self.pure_value(g.elt, p)
+        return (z3.And(*conds) if conds else z3.BoolVal(True)), val, p
 
     def ev_ListComp(self, e, st):
         # [expr for x in concrete-sequence]
@@ -1265,6 +1630,9 @@ class Engine:
                 out.append((s, it))
                 continue
             it = self.deref(s, it)
+            if isinstance(it, (VPy, VSeq)) and getattr(self.spec, 'map_comprehensions', False):
+                out.extend(self.map_comprehension(e, g, s, it))
+                continue
             if not isinstance(it, (VTuple, VList)):
                 raise Unsupported(f'comprehension over symbolic iterable at line {e.lineno}')
             states = [(s, [])]
@@ -1295,6 +1663,66 @@ class Engine:
                 states = nxt
             for s2, acc in states:
                 out.append((s2, acc if isinstance(acc, Raised) else s2.alloc(VList(acc))))
+        return out
+
+    def map_comprehension(self, e, g, s, it):
+        """opt-in (spec.map_comprehensions): [f(x) for x in <symbolic list>] with a PURE body whose value and raise
+        condition are explicit terms over x (stubs that return terms, no fresh symbols).  The result is a fresh list
+        R with len(R) == len(it) and R[k] == f(it[k]) for every k; the comprehension raises iff the body raises for
+        some element (the first such element in iteration order; since the body is pure only existence matters)."""
+        if g.ifs or not isinstance(g.target, ast.Name):
+            raise Unsupported('map comprehension with filter / tuple target')
+        if isinstance(it, VPy):
+            P_ = pyobj_sort()
+            self.oblige(s, 'iterated-pyobj-is-list', P_.is_py_strlist(it.z), e)
+            it = VSeq(P_.py_l(it.z), 'str')
+        x = from_z3(z3.Const(fresh_name('comp_elem'), it.z.sort().basis()), it.elem)
+        ctr0 = int(fresh_name('probe').rsplit('!', 1)[1])
+        sx = s.fork()
+        saved = sx.env.get(g.target.id)
+        sx.env[g.target.id] = x
+        nob = len(self.obligations)
+        results = self.ev(e.elt, sx)
+        if len(self.obligations) != nob:
+            raise Unsupported('map comprehension body generates obligations')
+        k = z3.Int(fresh_name('comp_k'))
+        n = z3.Length(it.z)
+
+        def at(t, idx):
+            return z3.substitute(t, (x.z, it.z[idx]))
+
+        def check_pure(s2, terms):
+            for key in s.heap:
+                if s2.heap.get(key) is not s.heap.get(key) and not (isinstance(key, str) and key.startswith('__')):
+                    raise Unsupported('map comprehension body changes the heap')
+            for t in terms:
+                for nm in free_syms(t):
+                    if '!' in nm and nm.rsplit('!', 1)[1].isdigit() and int(nm.rsplit('!', 1)[1]) > ctr0 \
+                            and nm != x.z.decl().name():
+                        raise Unsupported(f'map comprehension body introduces a fresh symbol ({nm})')
+        normal = [(s2, v) for s2, v in results if not isinstance(v, Raised)]
+        raising = [(s2, v) for s2, v in results if isinstance(v, Raised)]
+        if len(normal) != 1 or not hasattr(normal[0][1], 'z'):
+            raise Unsupported('map comprehension body must have exactly one normal outcome with a term value')
+        s_ok, v = normal[0]
+        cond_ok = s_ok.pc[len(s.pc):]
+        check_pure(s_ok, [v.z] + cond_ok)
+        out = []
+        res = z3.Const(fresh_name('comp_result'), z3.SeqSort(v.z.sort()))
+        sn = s.fork()
+        sn.assume(z3.Length(res) == n)
+        body = z3.And([at(c_, k) for c_ in cond_ok] + [res[k] == at(v.z, k)])
+        sn.assume(z3.ForAll([k], z3.Implies(z3.And(0 <= k, k < n), body)))
+        sn.heap['__cut__'] = True
+        out.append((sn, VSeq(res, v.typ)))
+        for s_r, r in raising:
+            cond_r = s_r.pc[len(s.pc):]
+            check_pure(s_r, cond_r)
+            j = z3.Int(fresh_name('comp_bad'))
+            sr = s.fork()
+            sr.assume(z3.And([0 <= j, j < n] + [at(c_, j) for c_ in cond_r]))
+            sr.heap['__cut__'] = True
+            out.append((sr, r))
         return out
 
     # ------------------------------------------------------------- assignment
@@ -1337,6 +1765,24 @@ class Engine:
                             nxt.extend(self.assign(s2, t, item))
                     results = nxt
                 return results
+            if isinstance(v, VSeq) and not any(isinstance(t, ast.Starred) for t in target.elts):
+                # a, b, c = <symbolic list>: ValueError unless it has exactly that many items
+                res = []
+                for s2, ok in self.branch(s, z3.Length(v.z) == len(target.elts), target):
+                    if not ok:
+                        res.append((s2, Raised(VExc('ValueError'))))
+                        continue
+                    results = [(s2, None)]
+                    for k, t in enumerate(target.elts):
+                        nxt = []
+                        for s3, r in results:
+                            if isinstance(r, Raised):
+                                nxt.append((s3, r))
+                            else:
+                                nxt.extend(self.assign(s3, t, from_z3(v.z[k], v.elem)))
+                        results = nxt
+                    res.extend(results)
+                return res
             raise Unsupported(f'unpacking of {v!r} at line {target.lineno}')
         if isinstance(target, ast.Subscript):
             return self.assign_subscript(s, target, val)
@@ -1362,6 +1808,21 @@ class Engine:
             else:
                 s.set_field(base, node.attr, newval)
             return
+        if isinstance(node, ast.Call) and self.callee_key(node.func) == 'cast' and len(node.args) == 2:
+            return self.store_container(s, node.args[1], newval)
+        if isinstance(node, ast.Subscript) and not isinstance(node.slice, ast.Slice):
+            # in-place mutation of a value held in a symbolic map: d[k].append(x)  ==>  d[k] = d[k] + [x]
+            n0 = len(s.pc)
+            rs = self.assign_subscript(s, node, newval)
+            if len(rs) != 1 or rs[0][0] is not s or rs[0][1] is not None or len(s.pc) != n0:
+                raise Unsupported('container store through a subscript that can fork or raise')
+            return
+        if isinstance(node, ast.Subscript) and not isinstance(node.slice, ast.Slice):
+            # d[k].append(x): the updated list value is written back into the (value-semantics) map / list
+            rs = self.assign_subscript(s, node, newval)
+            if len(rs) != 1 or rs[0][1] is not None or rs[0][0] is not s:
+                raise Unsupported('container store through a subscript that may fail')
+            return
         raise Unsupported(f'container store through {type(node).__name__}')
 
     def assign_subscript(self, s, target, val):
@@ -1386,6 +1847,32 @@ class Engine:
                         self.store_container(s3, target.value, VBytes(nz, mutable=True, origin=cont.origin))
                         res.append((s3, None))
                     continue
+                if isinstance(cont, VSeq):
+                    # lst[lo:hi] = other list (in place)
+                    n = z3.Length(cont.z)
+                    for s3, b in self.slice_bounds(s2, target.slice, n, target):
+                        if isinstance(b, Raised):
+                            res.append((s3, b))
+                            continue
+                        lo, hi = b
+                        v = self.deref(s3, val)
+                        if isinstance(v, (VList, VTuple)):
+                            vz = to_z3(VList(v.items), cont.typ)
+                        elif isinstance(v, VSeq) and v.elem == cont.elem:
+                            vz = v.z
+                        else:
+                            raise Unsupported(f'slice assignment of {v!r} into a symbolic list')
+                        hi2 = simp(lo + self.ctx_nonneg(s3, hi - lo))
+                        parts = []
+                        if not (z3.is_int_value(simp(lo)) and simp(lo).as_long() == 0):
+                            parts.append(z3.Extract(cont.z, z3.IntVal(0), lo))
+                        if not (isinstance(v, (VList, VTuple)) and not v.items):
+                            parts.append(vz)
+                        parts.append(z3.Extract(cont.z, hi2, simp(n - hi2)))
+                        nz = parts[0] if len(parts) == 1 else z3.Concat(*parts)
+                        self.store_container(s3, target.value, VSeq(nz, cont.elem, origin=cont.origin))
+                        res.append((s3, None))
+                    continue
                 raise Unsupported(f'slice assignment on {cont!r}')
             for s3, idx in self.ev(target.slice, s2):
                 if isinstance(idx, Raised):
@@ -1395,8 +1882,36 @@ class Engine:
                     kz = to_z3(idx, cont.kt)
                     if cont.vt.kind == 'obj':
                         raise Unsupported('store of object into symbolic map (use a stub)')
-                    nm = VMap(z3.Store(cont.dom, kz, True), z3.Store(cont.val, kz, to_z3(val, cont.vt)),
+                    if cont.vt.kind == 'pyobj':
+                        val = self.deref(s3, val)      # lists are held by value in a pyobj map
+                    if isinstance(val, VPy) and cont.vt.kind in ('str', 'int', 'bool'):
+                        # dynamically typed value stored where the sidecar declares a plain type: the declared
+                        # type becomes an obligation (it fails when e.g. None can reach a dict[str,str])
+                        P_ = pyobj_sort()
+                        rec_, acc_ = {'str': (P_.is_py_str, P_.py_s), 'int': (P_.is_py_int, P_.py_i),
+                                      'bool': (P_.is_py_bool, P_.py_b)}[cont.vt.kind]
+                        self.oblige(s3, f'declared-type({cont.vt.kind})', rec_(val.z), target)
+                        val = from_z3(acc_(val.z), cont.vt)
+                    if cont.vt.kind == 'seq':
+                        val = self.deref(s3, val)
+                        if isinstance(val, VSeq):
+                            val = VSeq(val.z, val.elem)
+                        if getattr(self.spec, 'alias_map_lists', False):
+                            # d[k] = <new list> rebinds the entry: live aliases of the old list are detached
+                            for nm_, v_ in list(s3.env.items()):
+                                og = getattr(v_, 'origin', None)
+                                if getattr(og, 'reload', None) is not None:
+                                    same = concrete_bool(og.key == kz)
+                                    if same is None and og.key.eq(kz):
+                                        same = True
+                                    if same is None:
+                                        raise Unsupported('store into a list-valued map while an alias of a '
+                                                          'possibly equal entry is live')
+                                    if same:
+                                        s3.env[nm_] = VSeq(v_.z, v_.elem)
+                    nm = VMap(z3.Store(cont.dom, kz, True), z3.Store(cont.val, kz, to_z3(self.deref(s3, val), cont.vt)),
                               cont.kt, cont.vt)
+                    self.note_mapkey(s3, nm, kz)
                     self.store_container(s3, target.value, nm)
                     res.append((s3, None))
                 elif isinstance(cont, VDict):
@@ -1405,7 +1920,7 @@ class Engine:
                         k = concrete_bytes(idx)
                     if k is None:
                         k = concrete_str(idx)
-                    if k is None:
+                    if k is None and idx is not VNone:      # the constant None is a concrete key too
                         raise Unsupported('symbolic key store into concrete dict')
                     d = dict(cont.items)
                     d[k] = val
@@ -1426,9 +1941,13 @@ class Engine:
                         if not ok:
                             res.append((s4, Raised(VExc('IndexError'))))
                             continue
-                        j = z3.If(i < 0, i + n, i)
-                        nz = z3.Concat(z3.Extract(cont.z, z3.IntVal(0), j), z3.Unit(to_z3(val, cont.elem)),
-                                       z3.Extract(cont.z, j + 1, n - j - 1))
+                        j = simp(z3.If(i < 0, i + n, i))
+                        if z3.is_int_value(j) and j.as_long() == 0:
+                            # lst[0] = x : [x] ++ tail, written without the empty prefix and 0+1 arithmetic
+                            nz = z3.Concat(z3.Unit(to_z3(val, cont.elem)), z3.Extract(cont.z, z3.IntVal(1), n - 1))
+                        else:
+                            nz = z3.Concat(z3.Extract(cont.z, z3.IntVal(0), j), z3.Unit(to_z3(val, cont.elem)),
+                                           z3.Extract(cont.z, j + 1, n - j - 1))
                         self.store_container(s4, target.value, VSeq(nz, cont.elem, origin=cont.origin))
                         res.append((s4, None))
                 else:
@@ -1506,10 +2025,38 @@ class Engine:
             cur, inc = vals
             curd = self.deref(s, cur)
             # in-place list/bytearray extension keeps identity
+            if isinstance(stmt.op, ast.Add) and isinstance(curd, (VList, VSeq)) and isinstance(cur, VRef) \
+                    and (isinstance(self.deref(s, inc), VSeq) or
+                         (isinstance(inc, VTag) and inc.tag == 'genexp') or isinstance(curd, VSeq)):
+                # list += <symbolic list | generator>: the list object (heap cell) becomes a symbolic sequence
+                from . import builtins_model as bm
+                for s2, ext in bm.gen_to_seq(self, s, inc, stmt, curd.elem if isinstance(curd, VSeq) else None):
+                    if isinstance(ext, Raised):
+                        out.append((s2, ('raise', ext.exc)))
+                        continue
+                    base = self.deref(s2, cur)
+                    bz = base.z if isinstance(base, VSeq) else to_z3(base, ext.typ)
+                    nz = ext.z if (isinstance(base, VList) and not base.items) else z3.Concat(bz, ext.z)
+                    s2.heap[cur.addr] = VSeq(nz, ext.elem)
+                    out.append((s2, None))
+                continue
             if isinstance(stmt.op, ast.Add) and isinstance(curd, (VList,)) and isinstance(cur, VRef):
                 incd = self.deref(s, inc)
                 s.heap[cur.addr] = VList(curd.items + incd.items)
                 out.append((s, None))
+                continue
+            if isinstance(stmt.op, ast.Add) and isinstance(cur, VSeq) and getattr(cur, 'origin', None) is not None \
+                    and (isinstance(self.deref(s, inc), (VSeq, VList, VTuple)) or
+                         (isinstance(inc, VTag) and inc.tag == 'genexp')):
+                # list that aliases a container entry (see alias_map_entry): += extends the SAME list object, so the
+                # new contents are written back through the alias link (store_container -> origin)
+                from . import builtins_model as bm
+                for s2, ext in bm.gen_to_seq(self, s, inc, stmt, cur.elem):
+                    if isinstance(ext, Raised):
+                        out.append((s2, ('raise', ext.exc)))
+                        continue
+                    self.store_container(s2, stmt.target, VSeq(z3.Concat(cur.z, ext.z), cur.elem, origin=cur.origin))
+                    out.append((s2, None))
                 continue
             for s2, r in self.binop(s, stmt.op, cur, inc, stmt):
                 if isinstance(r, Raised):
@@ -1677,7 +2224,8 @@ class Engine:
 
     def ex_If(self, stmt, st):
         out = []
-        if self.is_pure_cond(stmt.test, st) and self.simple_block(stmt.body) and self.simple_block(stmt.orelse):
+        if self.is_pure_cond(stmt.test, st) and self.simple_block(stmt.body) and self.simple_block(stmt.orelse) \
+                and not getattr(self.spec, 'no_if_merge', False):     # sidecar opt-out: fork instead of ite values
             try:
                 c = self.pure_cond(stmt.test, st)
             except Unsupported:
@@ -1709,6 +2257,10 @@ class Engine:
                 out.append((s, ('raise', VExc(v.tag[6:]))))
             elif isinstance(v, VOpaque):
                 out.append((s, ('raise', VExc('Exception', attrs={'opaque': v}))))
+            elif isinstance(v, VOrExc):
+                for s2, isx in self.branch(s, v.isexc, stmt):
+                    out.append((s2, ('raise', VExc('Exception', attrs={'opaque': v.exc}) if isx
+                                     else VExc('TypeError'))))
             else:
                 raise Unsupported(f'raise of {v!r}')
         return out
@@ -1773,6 +2325,7 @@ class Engine:
                         continue
                     if isinstance(cont, VMap):
                         kz = to_z3(idx, cont.kt)
+                        self.note_mapkey(s3, cont, kz)      # replay: the deleted key must exist in the real dict
                         for s4, has in self.branch(s3, z3.Select(cont.dom, kz), t):
                             if has:
                                 self.store_container(s4, t.value, VMap(z3.Store(cont.dom, kz, False), cont.val,
@@ -1874,22 +2427,60 @@ class Engine:
         for n in names:
             if extract.is_subclass(exc.cls, n):
                 return True
+        # a stubbed library exception named with its module (VExc('binascii.Error')) matches `except binascii.Error`
+        if '.' in exc.cls:
+            for el in (typ.elts if isinstance(typ, ast.Tuple) else [typ]):
+                if self.callee_key(el) == exc.cls:
+                    return True
         return False
 
     # ---- with
     def ex_With(self, stmt, st):
-        raise Unsupported(f'with statement at line {stmt.lineno}')
+        """(async) with <expr> [as x]: the sidecar supplies stubs 'with <key>' (enter: returns the bound value; for
+        `async with` this is an await, i.e. a cut point where the environment may run) and optionally
+        'with-exit <key>' (exit; default: nothing happens, exceptions are not swallowed).  <key> is the textual key
+        of the context expression, e.g. 'with self._read_locks[]'."""
+        if len(stmt.items) != 1:
+            raise Unsupported(f'with statement with several items at line {stmt.lineno}')
+        item = stmt.items[0]
+        key = self.callee_key(item.context_expr)
+        enter = self.spec.stubs.get('with ' + key)
+        if enter is None:
+            raise Unsupported(f'with statement at line {stmt.lineno}: no stub "with {key}" in the sidecar')
+        leave = self.spec.stubs.get('with-exit ' + key)
+        out = []
+        for s, cm in self.ev(item.context_expr, st):
+            if isinstance(cm, Raised):
+                out.append((s, ('raise', cm.exc)))
+                continue
+            for s2, v in self.apply_stub(s, enter, 'with ' + key, None, [cm], {}, stmt):
+                if isinstance(v, Raised):
+                    out.append((s2, ('raise', v.exc)))
+                    continue
+                if item.optional_vars is not None:
+                    rs = self.assign(s2, item.optional_vars, v)
+                    if len(rs) != 1 or rs[0][1] is not None:
+                        raise Unsupported('with ... as <complex target>')
+                for s3, flow in self.ex_block(stmt.body, s2):
+                    if leave is None:
+                        out.append((s3, flow))
+                        continue
+                    for s4, r in self.apply_stub(s3, leave, 'with-exit ' + key, None, [cm], {}, stmt):
+                        out.append((s4, ('raise', r.exc) if isinstance(r, Raised) else flow))
+        return out
+
+    ex_AsyncWith = ex_With
 
     # ---- loops
     def loop_targets(self, node):
         """Names assigned and self-fields stored syntactically inside a loop body."""
         names, fields, calls = set(), set(), set()
         for sub in ast.walk(node):
-            if isinstance(sub, (ast.Assign, ast.AugAssign, ast.AnnAssign, ast.For, ast.Delete, ast.With)):
+            if isinstance(sub, (ast.Assign, ast.AugAssign, ast.AnnAssign, ast.For, ast.AsyncFor, ast.Delete, ast.With)):
                 tgts = []
                 if isinstance(sub, ast.Assign):
                     tgts = sub.targets
-                elif isinstance(sub, (ast.AugAssign, ast.AnnAssign, ast.For)):
+                elif isinstance(sub, (ast.AugAssign, ast.AnnAssign, ast.For, ast.AsyncFor)):
                     tgts = [sub.target]
                 elif isinstance(sub, ast.Delete):
                     tgts = sub.targets
@@ -1909,6 +2500,8 @@ class Engine:
                 names.add(sub.name)
             elif isinstance(sub, ast.NamedExpr):
                 names.add(sub.target.id)
+            elif isinstance(sub, ast.Yield):
+                calls.add('yield')
             elif isinstance(sub, ast.Call):
                 calls.add(self.callee_key(sub.func))
                 f = sub.func
@@ -1934,6 +2527,9 @@ class Engine:
             if key in self.spec.inline:
                 raise Unsupported('inlined call inside a cut loop: declare its modifies in the loop spec')
         fields |= set(lspec.modifies)
+        # locals whose object is mutated through (inlined) method calls in the body, e.g. a packet reader:
+        # LoopSpec.havoc_locals = [names]; their shape comes from Spec.local_types
+        names |= set(getattr(lspec, 'havoc_locals', ()))
         for n in sorted(names):
             if n in s.env:
                 s.env[n] = self.fresh_like(s, s.env[n], n)
@@ -1966,7 +2562,9 @@ class Engine:
         if isinstance(v, VStr):
             return VStr(z3.String(fresh_name(label)))
         if isinstance(v, VSeq):
-            return VSeq(z3.Const(fresh_name(label), v.z.sort()), v.elem)
+            # an aliased list (see alias_map_entry) stays an alias: the invariant must relate it to its map entry
+            return VSeq(z3.Const(fresh_name(label), v.z.sort()), v.elem,
+                        origin=v.origin if getattr(v.origin, 'reload', None) else None)
         if isinstance(v, VOpaque):
             return VOpaque(z3.Const(fresh_name(label), v.z.sort()), v.sortname)
         if isinstance(v, VOpt):
@@ -1994,6 +2592,38 @@ class Engine:
             else:
                 s.assume(it)
 
+    def unroll_while(self, stmt, st, bound, ordn):
+        """LoopSpec(unroll=N) on a while loop: the body is executed at most N times per path; a path that would
+        enter iteration N+1 must be infeasible - obligation `unroll-bound` (goal False under its path condition) -
+        so the unrolling is exhaustive, not a bounded approximation."""
+        out = []
+        live = [st]
+        for _k in range(bound + 1):
+            nxt = []
+            for s0 in live:
+                for s, side in self.cond(stmt.test, s0, stmt):
+                    if isinstance(side, tuple):
+                        out.append((s, side))
+                        continue
+                    if not side:
+                        out.append((s, None))
+                        continue
+                    if _k == bound:
+                        self.oblige(s, f'unroll-bound(loop{ordn},{bound})', z3.BoolVal(False), stmt,
+                                    note=f'more than {bound} iterations')
+                        continue
+                    for s3, flow in self.ex_block(stmt.body, s):
+                        if flow is None or flow[0] == 'continue':
+                            nxt.append(s3)
+                        elif flow[0] == 'break':
+                            out.append((s3, None))
+                        else:
+                            out.append((s3, flow))
+            live = nxt
+            if not live:
+                break
+        return out
+
     def ex_While(self, stmt, st):
         ordn = self.loop_ordinals[id(stmt)]
         lspec = self.spec.loops.get(ordn)
@@ -2005,9 +2635,15 @@ class Engine:
                 self.notes.append(f'loop #{ordn} header changed: {hdr!r} != {lspec.header!r}')
         if stmt.orelse:
             raise Unsupported('while-else')
+        if lspec.unroll:
+            return self.unroll_while(stmt, st, int(lspec.unroll), ordn)
         out = []
         entry = st.fork()
         # 1. invariant on entry
+        if lspec.lemmas:
+            lc = self.loop_ctx(st, entry)
+            lc.head = entry
+            self.use_lemmas(st, lspec.lemmas(lc), stmt)
         self.oblige(st, f'inv-entry(loop{ordn})', lspec.invariant(self.loop_ctx(st, entry)), stmt)
         # 2. havoc + assume invariant
         h = st.fork()
@@ -2044,10 +2680,20 @@ class Engine:
                             self.oblige(s3, f'variant(loop{ordn})', z3.And(v0 >= 0, v1 < v0), stmt)
                         # path ends here (cut)
                     elif flow[0] == 'break':
+                        if lspec.lemmas and getattr(lspec, 'lemmas_on_break', False):
+                            # opt-in: leaving through `break` is a loop exit too (definitional instances only)
+                            lc = self.loop_ctx(s3, entry)
+                            lc.head = hsnap
+                            self.use_lemmas(s3, lspec.lemmas(lc), stmt)
                         out.append((s3, None))
                     else:
                         out.append((s3, flow))
         return out
+
+    def ex_AsyncFor(self, stmt, st):
+        # `async for` over a stubbed asynchronous iterator: the stub returns the symbolic sequence of the items the
+        # iterator yields; a sequence value carrying `.raises = [classes]` may also raise after any prefix (cut_for)
+        return self.ex_For(stmt, st)
 
     def ex_For(self, stmt, st):
         ordn = self.loop_ordinals[id(stmt)]
@@ -2058,8 +2704,18 @@ class Engine:
                 out.append((s, ('raise', it.exc)))
                 continue
             itd = self.deref(s, it)
+            if isinstance(itd, VPy):
+                # iterating a dynamically typed value: only lists of str are modelled; that it IS a list is an
+                # obligation (iterating None raises TypeError, a str iterates its characters)
+                P_ = pyobj_sort()
+                self.oblige(s, 'iterated-pyobj-is-list', P_.is_py_strlist(itd.z), stmt)
+                itd = VSeq(P_.py_l(itd.z), 'str')
             if isinstance(itd, (VTuple, VList)) and (lspec is None or lspec.unroll):
                 out.extend(self.unroll_for(stmt, s, list(itd.items)))
+                continue
+            if isinstance(itd, VDict) and lspec is None:
+                # iterating a dict with concrete keys yields its keys in insertion order
+                out.extend(self.unroll_for(stmt, s, [wrap_const(k) for k in itd.items]))
                 continue
             if isinstance(itd, VTag) and itd.tag == 'range' and lspec is None:
                 lo, hi = itd.payload
@@ -2112,6 +2768,9 @@ class Engine:
             if hdr != lspec.header:
                 self.notes.append(f'loop #{ordn} header changed: {hdr!r} != {lspec.header!r}')
         out = []
+        if isinstance(itd, (VList, VTuple)) and itd.items and all(isinstance(x, VStr) for x in itd.items):
+            # a concrete list of strings under a loop contract: viewed as the sequence it denotes
+            itd = VSeq(to_z3(VList(itd.items), T('seq', [T('str')])), 'str')
         if isinstance(itd, VSeq):
             n = z3.Length(itd.z)
             lo = z3.IntVal(0)
@@ -2130,9 +2789,29 @@ class Engine:
 
             def elem(i):
                 return VInt(itd.z[i])
+        elif isinstance(itd, VStr):
+            n = z3.Length(itd.z)
+            lo = z3.IntVal(0)
+
+            def elem(i):
+                return VStr(z3.SubString(itd.z, i, 1))
+        elif isinstance(itd, VTag) and itd.tag == 'enumerate' and isinstance(itd.payload, (VStr, VSeq)):
+            # enumerate(x) over a str / symbolic list: elements (i, x[i]); c.extra['iter'] is the underlying x
+            under = itd.payload
+            itd = under
+            n = z3.Length(under.z)
+            lo = z3.IntVal(0)
+
+            def elem(i):
+                return VTuple([VInt(i), VStr(z3.SubString(under.z, i, 1)) if isinstance(under, VStr)
+                               else from_z3(under.z[i], under.elem)])
         else:
             raise Unsupported(f'for over {itd!r}')
         entry = s.fork()
+        if lspec.lemmas:
+            lc = self.loop_ctx(s, entry, {'i': lo, 'iter': itd, 'i0': lo})
+            lc.head = entry
+            self.use_lemmas(s, lspec.lemmas(lc), stmt)
         self.oblige(s, f'inv-entry(loop{ordn})',
                     lspec.invariant(self.loop_ctx(s, entry, {'i': lo, 'iter': itd})), stmt)
         h = s.fork()
@@ -2140,27 +2819,51 @@ class Engine:
         i = z3.Int(fresh_name(f'loop{ordn}_i'))
         h.assume(z3.And(i >= lo, z3.Or(i <= n, i == lo)))
         h.assume(lspec.invariant(self.loop_ctx(h, entry, {'i': i, 'iter': itd})))
+        hsnap = h.fork()
+        for cls in getattr(itd, 'raises', ()):
+            # the (async) iterator raises instead of producing item i (any i: the head state is arbitrary)
+            sr = h.fork()
+            sr.env['__loop_i__'] = VInt(i)
+            out.append((sr, ('raise', VExc(cls))))
+
+        def for_lemmas(sx, iv):
+            # definitional instances supplied by the sidecar for a for-loop (same protocol as while loops)
+            if lspec.lemmas:
+                lc = self.loop_ctx(sx, entry, {'i': iv, 'iter': itd, 'i0': i})
+                lc.head = hsnap
+                self.use_lemmas(sx, lspec.lemmas(lc), stmt)
         # exit: i >= n
         for s2, more in self.branch(h, i < n, stmt):
             if not more:
+                for_lemmas(s2, i)
                 if stmt.orelse:
                     out.extend(self.ex_block(stmt.orelse, s2))
                 else:
                     s2.env['__loop_i__'] = VInt(i)
                     out.append((s2, None))
                 continue
-            el = elem(i)
+            if isinstance(itd, VSeq) and itd.elem.kind == 'obj':
+                # sequence of objects (e.g. the SFTPName records a scandir yields): the i-th item is a fresh heap
+                # object of the declared class with unconstrained fields (every element is arbitrary)
+                el = self.new_object(s2, itd.elem.name, f'loop{ordn}_item')
+            else:
+                el = elem(i)
             if isinstance(itd, VBytes):
                 s2.assume(z3.And(el.z >= 0, el.z <= 255))
+            if getattr(itd, 'elem_assume', None) is not None:
+                # per-item part of the contract of the stub that produced the sequence, instantiated at the loop index
+                s2.assume(itd.elem_assume(i))
             for s3, r in self.assign(s2, stmt.target, el):
                 if isinstance(r, Raised):
                     out.append((s3, ('raise', r.exc)))
                     continue
                 for s4, flow in self.ex_block(stmt.body, s3):
                     if flow is None or flow[0] == 'continue':
+                        for_lemmas(s4, i + 1)
                         self.oblige(s4, f'inv-preserved(loop{ordn})',
                                     lspec.invariant(self.loop_ctx(s4, entry, {'i': i + 1, 'iter': itd})), stmt)
                     elif flow[0] == 'break':
+                        s4.env['__loop_i__'] = VInt(i)
                         out.append((s4, None))
                     else:
                         s4.env['__loop_i__'] = VInt(i)
@@ -2179,6 +2882,9 @@ class Engine:
     def ex_FunctionDef(self, stmt, st):
         st.env[stmt.name] = VTag('localfn:' + stmt.name, payload=stmt)
         return [(st, None)]
+
+    def ex_AsyncFunctionDef(self, stmt, st):
+        return self.ex_FunctionDef(stmt, st)
 
     # ------------------------------------------------------------------- run
     def run(self, st):
